@@ -586,6 +586,39 @@ def handleNp (j : Json) : D Json := do
     | "set_first_last" => do
         pure (flagsToJson (Np.setLast (Np.setFirst (← field j "flags" >>= asFlagList) .unknown) .unknown))
     | "of_input" => do pure (cellsToJson (Np.ofInput (← field j "v" >>= asList asV)))
+    | "sign" => do pure (cellsToJson (Np.uf1 Np.Fl.sign (← a)))
+    | "le" => do pure (bcellsToJson (Np.leS (← a) (← r)))
+    | "eq_true" => do pure (bcellsToJson (Np.eqTrue (← field j "c1" >>= asList asBCellNp)))
+    | "any" => do pure (toJson (Np.anyB (← field j "c1" >>= asList asBCellNp)))
+    | "view_init_set" => do
+        let fl ← field j "flags1" >>= asFlagList
+        pure (flagsToJson (Np.setInit1 fl (Np.setWhereB (Np.init1 fl) (← field j "c1" >>= asList asBCellNp) .fail)))
+    | "view_tail_set" => do
+        let fl ← field j "flags1" >>= asFlagList
+        pure (flagsToJson (Np.setTail fl (Np.setWhereB (Np.tail1 fl) (← field j "c1" >>= asList asBCellNp) .fail)))
+    | "view_tail_set_bools" => do
+        let fl ← field j "flags1" >>= asFlagList
+        pure (flagsToJson (Np.setTail fl (Np.setWhere (Np.tail1 fl) (Np.maskOf (← a)) .missing)))
+    | "set_at0" => do
+        pure (match Np.setAt0 (← field j "flags" >>= asFlagList) .unknown with
+          | .ok fl => flagsToJson fl
+          | .error e => Json.str e.name)
+    | "mask_or" => do pure (Json.arr ((Np.bor2 (Np.maskOf (← a)) (Np.maskOf (← b))).map toJson).toArray)
+    | "mask_and_xor" => do
+        pure (Json.arr #[Json.arr ((Np.band (Np.maskOf (← a)) (Np.maskOf (← b))).map toJson).toArray,
+                         Json.arr ((Np.bxor (Np.maskOf (← a)) (Np.maskOf (← b))).map toJson).toArray])
+    | "filled" => do pure (Json.arr ((Np.ofInputFilled (← field j "v" >>= asList asV)).map flToJson).toArray)
+    | "of_input_junk" => do
+        pure (cellsToJson (Np.ofInputJunk (← field j "v" >>= asList asV) (← field j "junk" >>= asList asFl)))
+    | "pdiff" => do pure (Json.arr ((Np.npDiff ((← a).map (·.d))).map flToJson).toArray)
+    | "mean_sign" => do pure (flToJson (Np.Fl.sign (Np.npMean ((← a).map (·.d)))))
+    | "mul_s" => do pure (Json.arr ((Np.npMulS (← field j "s" >>= asFl) ((← a).map (·.d))).map flToJson).toArray)
+    | "where_le_plus1" => do
+        pure (Json.arr (((Np.npWhere (Np.npLeS ((← a).map (·.d)) (← r))).map (· + 1)).map toJson).toArray)
+    | "set_idx" => do
+        pure (flagsToJson (Np.setIdx (← field j "flags" >>= asFlagList) (← field j "idx" >>= asList asNat) .suspect))
+    | "great_circle" => do
+        pure (cellsToJson (Np.greatCircle (← field j "hops" >>= asList asV) (← field j "n" >>= asNat)))
     | s => throw s!"unknown np op {s}")
   pure (Json.mkObj [("out", out)])
 
